@@ -14,3 +14,9 @@ package syntax
 //@   ensures [quoted] len(i) >= 2 && hasPrefix(i, "\"") && hasSuffix(i, "\"") && substr(i, 1, len(i) - 2) != "."
 //@             && !hasPrefix(substr(i, 1, len(i) - 2), "\"") && !hasSuffix(substr(i, 1, len(i) - 2), "\"") ==> result == substr(i, 1, len(i) - 2)
 //@   ensures [current_package] i == "\".\"" ==> result == ""
+
+//@ interface aliaser.Alias(import_ string) string pure
+
+//@ func CompileServiceValue
+//@   property C12 C02
+//@   requires [wired] a != nil
